@@ -1,11 +1,13 @@
 #!/bin/bash
-# seed_matrix.sh [names...]: run every seeded change (default: all under /verif/seeded) against the
-# check of its own property, serially (each is applied to /repo's working tree and undone), and
+# seed_matrix.sh [name[:PROP]...]: run every seeded change (default: all under /verif/seeded) against the
+# check of its own property (or of PROP), serially (each is applied to /repo's working tree and undone), and
 # record the outcome in /verif/seeded/RESULTS.json (committed: DESIGN.md's table is made from it).
 cd /verif
-names=${@:-$(ls seeded | grep -v RESULTS)}
-for name in $names; do
+names=${@:-$(ls seeded | grep -v "RESULTS\|NOTES")}
+for spec in $names; do
+  name=${spec%%:*}
   prop=$(python3 -c "import json;print(json.load(open('/verif/seeded/$name/meta.json'))['property'])")
+  case "$spec" in *:*) prop=${spec##*:};; esac
   if ! git -C /repo diff --quiet; then echo "/repo is dirty"; exit 2; fi
   if ! git -C /repo apply --check /verif/seeded/$name/patch.diff 2>/dev/null; then
     res="patch-does-not-apply"; rc=-1; v=""
@@ -19,7 +21,7 @@ import json,sys,os,subprocess
 p='/verif/seeded/RESULTS.json'
 d=json.load(open(p)) if os.path.exists(p) else {}
 name,prop,res,rc,v=sys.argv[1:6]
-d[name]={"property":prop,"result":res,"exit":int(rc),"line":v,
+d.setdefault(name,{})[prop]={"result":res,"exit":int(rc),"line":v,
          "repo_head":subprocess.check_output("git -C /repo log --format=%h -1",shell=True,text=True).strip(),
          "verif_head":subprocess.check_output("git -C /verif log --format=%h -1",shell=True,text=True).strip()}
 json.dump(d,open(p,'w'),indent=1,sort_keys=True)
